@@ -274,7 +274,30 @@ func posObserveWith(files []*dst.File, names []string, reuseFileRestorer, extras
 				break
 			}
 		}
+		// two tokens that a fresh parse keeps apart may not share a position in the restored ast
+		tie := -1
 		if firstDiff < 0 {
+			for i := 0; i+1 < len(a); i++ {
+				if a[i].pr == a[i+1].pr && a[i].pf != a[i+1].pf {
+					tie = i
+					break
+				}
+			}
+		}
+		if tie >= 0 {
+			pf.RankR = []string{a[tie].l + " = " + a[tie+1].l}
+			pf.RankF = []string{a[tie].l + " < " + a[tie+1].l}
+			idx := 0
+			fmt.Sscanf(a[tie].l, "%d.", &idx)
+			if idx < len(nodesR) {
+				field := a[tie].l
+				if j := strings.Index(field, "."); j >= 0 {
+					field = field[j+1:]
+				}
+				pf.rankKey = strings.TrimPrefix(fmt.Sprintf("%T", nodesR[idx]), "*ast.") + "." + field
+			}
+			pf.note = fmt.Sprintf("restored ast gives %s and %s one position (%d); the fresh parse keeps them apart", a[tie].l, a[tie+1].l, a[tie].pr)
+		} else if firstDiff < 0 {
 			pf.RankR = []string{fmt.Sprintf("%d labels in equal order", len(a))}
 			pf.RankF = pf.RankR
 		} else {
